@@ -2,6 +2,7 @@ import RichModel.Lemmas.ConcDeadlock
 import RichModel.Lemmas.ConcOut
 import RichModel.Lemmas.ConcRecord
 import RichModel.Lemmas.ConcStable
+import RichModel.Lemmas.ConcCount
 /-!
 # C11 — Console output is thread-safe under every interleaving
 
@@ -27,7 +28,12 @@ One variant flag, `Cfg.stopTailUnlocked` (harness constant `STOP_TAIL_UNLOCKED`,
 repaired); `old_progress_stop_tail_races_start` is its witness schedule.  Every other theorem is stated for
 an arbitrary `cfg`, i.e. for both values of the flag.
 
-18 theorems: `reach_inv`, `reach_out` (invariants); `lock_order_acyclic`, `no_deadlock`, `no_internal_error`,
+Round 4 additions: the operation `Op.proxyPrint` (a `write()` on the redirected `sys.stdout` / `sys.stderr` that completes lines:
+`with console: console.print(lines)`) is part of the program type, so every theorem below covers threads that write through the
+`FileProxy` of a running display (in `StableOp` too: the screen theorem covers them); `write_calls_per_operation` /
+`at_most_one_write_call_per_print` (the number of `file.write` CALLS, not only where the pieces end up).
+
+20 theorems: `write_calls_per_operation`, `at_most_one_write_call_per_print`, `reach_inv`, `reach_out` (invariants); `lock_order_acyclic`, `no_deadlock`, `no_internal_error`,
 `write_mutual_exclusion`; `write_own_output_only`, `output_exactly_once`, `finished_thread_flushed`,
 `write_per_print`, `capture_isolated`; `record_order_eq_file_order`, `exports_partition_the_record`,
 `export_reads_a_stable_record`, `record_eq_file_when_quiet`; `live_screen_under_schedules_partial`; the two
@@ -357,6 +363,48 @@ example :
       s.sh.record = [] ∧ itemsOps (fileItems s) = [.text ['a'], .lf, .text ['c'], .lf, .text ['b'], .lf] := by
   decide
 
+/-! ## The number of `file.write` calls (round 4) -/
+
+/-- **write_calls_per_operation.**  Under every schedule, at every moment: the number of `file.write` calls thread `t` has
+issued during its `i`-th operation is at most the number of `file.write` statements in the code of that operation
+(0 for an operation that has not started or does not exist). -/
+theorem write_calls_per_operation (cfg : Cfg) (sh : Shared) (progs : List (List Op)) (hf : Fresh sh) (s : State)
+    (hr : Reach cfg sh progs s) (t i : Nat) : writesOf s t i ≤ budget cfg progs t i := by
+  obtain ⟨sched, rfl⟩ := hr
+  have h := (wc_run sched (wc_init cfg sh progs hf.file)).cnt t i
+  split at h <;> split at h <;> omega
+
+/-- **at_most_one_write_call_per_print.**  A `print` / `log` — with or without a display, whatever the other threads do —
+issues at most one `file.write` call.  (Together with `write_per_print`: the one non-empty piece the print rendered is in
+exactly one write of that thread; so a finished print with non-empty output made exactly one call.) -/
+theorem at_most_one_write_call_per_print (cfg : Cfg) (sh : Shared) (progs : List (List Op)) (hf : Fresh sh) (s : State)
+    (hr : Reach cfg sh progs s) (t i : Nat) (ls : List Line) (hop : opAt progs t i = some (.print ls)) :
+    writesOf s t i ≤ 1 := by
+  have h := write_calls_per_operation cfg sh progs hf s hr t i
+  simpa [budget, hop, nWrites_print] using h
+
+set_option maxRecDepth 100000 in
+/-- Two printing threads under a display-less console, alternating step by step: each print made exactly one call. -/
+example :
+    let cfg : Cfg := { kind := .none, width := 20, height := 8, record := true, transient := false }
+    let progs : List (List Op) := [[.print [['a']], .print [['b']]], [.print [['c']]]]
+    let s := run cfg (initState {} progs) ((List.range 120).map (· % 2))
+    opAt progs 0 1 = some (.print [['b']]) ∧ writesOf s 0 0 = 1 ∧ writesOf s 0 1 = 1 ∧ writesOf s 1 0 = 1 ∧ writesOf s 1 1 = 0 := by
+  decide
+
+set_option maxRecDepth 100000 in
+/-- Nested capture blocks at different buffer offsets in two threads (`Op.nested`: the inner block starts with a non-empty
+buffer; thread 1 first runs a plain capture, so its blocks start at other offsets), alternating step by step: every block
+returns its own thread's pieces only — the instance of `capture_isolated` for the nested op type. -/
+example :
+    let cfg : Cfg := { kind := .none, width := 20, height := 8, record := false, transient := false }
+    let progs : List (List Op) := [[.nested [['a']] [['b']] [['c']]], [.capture [[['x']], [['y']]], .nested [['p'], ['q']] [['r']] [['s']]]]
+    let s := run cfg (initState {} progs) ((List.range 400).map (· % 2))
+    (s.th 0).captured.map itemsOps = [[.text ['b'], .lf], [.text ['a'], .lf, .text ['c'], .lf]] ∧
+    (s.th 1).captured.map itemsOps = [[.text ['x'], .lf, .text ['y'], .lf], [.text ['r'], .lf],
+        [.text ['p'], .lf, .text ['q'], .lf, .text ['s'], .lf]] ∧ s.sh.file = [] := by
+  decide
+
 /-! ## Non-vacuity -/
 
 /-- A constant-height session that meets every hypothesis of `live_screen_under_schedules_partial`: the
@@ -391,5 +439,15 @@ example :
 /-- Programs with captures, recording on, three threads: the hypotheses of the general theorems (`Fresh`)
 are met by the default shared state. -/
 example : Fresh ({} : Shared) := ⟨fun _ => rfl, rfl, rfl⟩
+
+set_option maxRecDepth 100000 in
+/-- Two threads write whole lines through the redirected `sys.stdout` under a running Live (state after `start; refresh`),
+alternating step by step: one `file.write` call each, each consisting of that thread's pieces only. -/
+example :
+    let progs : List (List Op) := [[.proxyPrint [['a', 'a', 'a']]], [.proxyPrint [['b', 'b', 'b']]]]
+    let s := run cfgW (initState shC progs) ((List.range 200).map (· % 2))
+    (s.sh.file.drop 2).map (fun w => (w.tid, w.items.map (·.tid))) = [(1, [1, 1, 1]), (0, [0, 0, 0])] ∨
+    (s.sh.file.drop 2).map (fun w => (w.tid, w.items.map (·.tid))) = [(0, [0, 0, 0]), (1, [1, 1, 1])] := by
+  decide
 
 end RichModel.C11
